@@ -530,6 +530,59 @@ func runC02(r *mc.Run) {
 			}
 		}
 	}
+	// one CERTIFICATE block whose payload is SEVERAL certificates back to back: whatever a reader makes of the first,
+	// the certificates hidden behind it are not listed (every standard reader sees at most the first)
+	unspecifiedFor := map[string]int{}
+	{
+		cat := func(cs ...*x509.Certificate) []byte {
+			var der []byte
+			for _, c := range cs {
+				der = append(der, c.Raw...)
+			}
+			return world.PEMBlock("CERTIFICATE", der)
+		}
+		for _, hc := range []struct {
+			name  string
+			pem   []byte
+			first int // index in {T, F} of the first certificate of the block (its status is left open)
+			lists []bool
+		}{{"T||F", cat(T.Root, F.Root), 0, []bool{false, false}}, {"F||T", cat(F.Root, T.Root), 1, []bool{false, false}},
+			{"T||T||F", cat(T.Root, T.Root, F.Root), 0, []bool{false, false}}, {"F-inter||T", cat(F.Inter, T.Root), -1, []bool{false, false}}} {
+			for _, how := range []string{"inline", "file"} {
+				name := "one-block-holding-" + hc.name + "/" + how
+				rot := &ccpb.RootOfTrust{Cabundles: []string{string(hc.pem)}}
+				if how == "file" {
+					rot = &ccpb.RootOfTrust{CabundlePaths: []string{wf("hidden-"+strings.ReplaceAll(hc.name, "|", "_")+".pem", hc.pem)}}
+				}
+				if hc.first >= 0 {
+					unspecifiedFor[name] = hc.first
+				}
+				cfgs = append(cfgs, struct {
+					name  string
+					rot   *ccpb.RootOfTrust
+					lists []bool
+				}{name, rot, hc.lists})
+				// the same next to a proper block of the other root
+				name2 := name + "+proper-block"
+				other := T.Root
+				l2 := []bool{true, false}
+				if hc.first == 0 {
+					other, l2 = F.Root, []bool{false, true}
+				}
+				if hc.first >= 0 {
+					unspecifiedFor[name2] = hc.first
+					rot2 := &ccpb.RootOfTrust{Cabundles: []string{string(hc.pem) + string(world.PEM(other))}}
+					_ = l2
+					// with the proper block both roots may end up listed: nothing left to judge but crashes and flags
+					cfgs = append(cfgs, struct {
+						name  string
+						rot   *ccpb.RootOfTrust
+						lists []bool
+					}{name2, rot2, nil})
+				}
+			}
+		}
+	}
 	// RELATIVE bundle paths (the process's working directory is moved into a scratch directory while such a
 	// configuration is converted): a path names one file, literally — not the file reached after dropping leading
 	// characters, white space, a scheme, a case difference, an environment reference or a suffix
@@ -605,8 +658,9 @@ func runC02(r *mc.Run) {
 				err := verifyRawBoth(r, id, w.Raw(), opts)
 				out = verdict(err)
 				listed := cfg.lists != nil && cfg.lists[qi]
+				uq, open := unspecifiedFor[cfg.name]
 				switch {
-				case cfg.lists == nil:
+				case cfg.lists == nil || (open && uq == qi):
 					out += "(unspecified)"
 				case err == nil && !listed:
 					r.Violate("config:trusts-unlisted:"+cfg.name, id, "a quote under a root the configuration does not list is accepted", nil)
